@@ -11,6 +11,24 @@ use std::sync::{Arc, Mutex};
 
 use serde_json::{json, Value};
 
+// ---- connection lifecycle log (ConnLifecycle.tla): dial / write / read / drop tokens of this thread's scenario,
+// consecutive repetitions collapsed
+thread_local! { static LIFE: std::cell::RefCell<Vec<(String, usize)>> = const { std::cell::RefCell::new(Vec::new()) }; }
+pub fn life_push(kind: &str, c: usize) {
+    let _ = LIFE.try_with(|l| {
+        let mut l = l.borrow_mut();
+        if l.last().map(|t| t.0 == kind && t.1 == c).unwrap_or(false) {
+            return;
+        }
+        if l.len() < 4096 {
+            l.push((kind.to_string(), c));
+        }
+    });
+}
+pub fn life_take() -> Vec<Value> {
+    LIFE.with(|l| l.borrow_mut().drain(..).map(|(k, c)| json!([k, c])).collect())
+}
+
 #[derive(Clone, Debug, PartialEq)]
 pub enum Fault {
     None,
@@ -210,6 +228,7 @@ pub struct Scripted {
 
 impl Read for Scripted {
     fn read(&mut self, buf: &mut [u8]) -> io::Result<usize> {
+        life_push("r", self.ci + 1);
         let mut w = self.world.lock().unwrap();
         w.transport_reads += 1;
         if w.transport_reads > w.max_transport_reads {
@@ -272,6 +291,7 @@ impl Write for Scripted {
         let mut w = self.world.lock().unwrap();
         let c = &mut w.conns[self.ci];
         let before = c.written.len();
+        life_push(if before == 0 && buf.starts_with(b"CONNECT ") { "t" } else { "w" }, self.ci + 1);
         c.wlog.push((c.pulled, before, buf.len()));
         c.written.extend_from_slice(buf);
         Ok(buf.len())
@@ -283,6 +303,7 @@ impl Write for Scripted {
 
 impl Drop for Scripted {
     fn drop(&mut self) {
+        life_push("x", self.ci + 1);
         if let Ok(mut w) = self.world.lock() {
             w.conns[self.ci].dropped = true;
         }
@@ -302,14 +323,17 @@ pub fn install_dialer(world: &Shared) {
             w.conns.push(nw.conns.remove(0));
         }
         if ci >= w.conns.len() {
+            life_push("n", 0);
             return Some(Err(io::Error::new(io::ErrorKind::ConnectionRefused, "no scripted peer left")));
         }
         w.dialed += 1;
         w.conns[ci].dial = Some((req.scheme.clone(), req.host.clone(), req.port));
         if let Some(kind) = w.conns[ci].script.refuse {
+            life_push("n", 0);
             return Some(Err(kind.into()));
         }
         drop(w);
+        life_push(if req.scheme == "https" { "s" } else { "d" }, ci + 1);
         Some(Ok(Box::new(Scripted { world: world.clone(), ci })))
     })));
 }
